@@ -21,7 +21,8 @@ def registry_enumeration(rep):
 def run(tier, seed):
     return run_property(
         "C11", tier, seed, level="other",
-        deductive=[("c11_dunder", None), ("c03_wrappers", r"constant_forwarded|reaches_op_unchanged|result_returned")],
+        deductive=[("c11_dunder", None), ("c03_wrappers", r"constant_forwarded|reaches_op_unchanged|result_returned"), ("c11_dispatch", None)],
+        replay=_replay,
         enumerations=[registry_enumeration],
         bounded=[("api_bounded.py", ["--check", "C11"])],
         trusted=["NumPy's __array_ufunc__/__array_function__ dispatch protocol"],
@@ -35,3 +36,20 @@ def run(tier, seed):
 
 
 replay = default_replay_cmd
+
+
+def _replay(rep, r):
+    if not r.name.startswith("C11.dispatch"):
+        return None, False, "structural obligation: no input to replay"
+    key = json.dumps({k: r.meta.get(k) for k in ("function", "category", "method", "operands", "out")}, sort_keys=True)
+    if key not in _memo:
+        env = dict(os.environ, PYTHONPATH=os.path.join(REPO, "src") + os.pathsep + VERIF)
+        p = subprocess.run([VENV_PY, os.path.join(VERIF, "runtime", "c11_dispatch_replay.py"), key], capture_output=True, text=True, env=env, timeout=300)
+        lines = [l for l in p.stdout.splitlines() if l.startswith("{")]
+        _memo[key] = json.loads(lines[-1]) if lines else dict(confirmed=False, note=f"replay produced no result: {p.stderr[-300:]}")
+    out = _memo[key]
+    path = rep.write_replay(r.name, dict(obligation=r.to_json(), solver_output=r.model, confirmed=out.get("confirmed", False), replay=out))
+    return path, out.get("confirmed", False), out
+
+
+_memo = {}
